@@ -2,6 +2,7 @@ package props
 
 import (
 	"context"
+	"encoding/json"
 	"fmt"
 	"math/rand/v2"
 	"runtime"
@@ -265,6 +266,80 @@ func c19Overlap(c *h.Ctx, n, rounds int) {
 		}
 	}
 	c.Count("overlap.identical-call-rounds", int64(nrounds))
+}
+
+// c19EditedDocuments: a call answers for the document it is given now. The
+// caller may have edited the document since an earlier call (same object, same
+// number of members), or the document may be a new one that happens to lie
+// where an earlier, discarded one lay: nothing remembered from the earlier
+// call may show.
+func c19EditedDocuments(c *h.Ctx) {
+	ptxts := []string{`$.keyvalue().key`, `$.keyvalue() ? (@.value > 5).key`, `$.*`, `$.o.keyvalue().key`, `$.** ? (@.type() == "number")`, `$.keyvalue().value`, `exists($.k07)`, `$.k07`, `$.o.*`, `$.size()`, `$.o.keyvalue().value`}
+	for pi, pt := range ptxts {
+		p := path.MustParse(pt)
+		mk := func(round int) map[string]any {
+			m := map[string]any{}
+			for i := 0; i < 20; i++ {
+				m[fmt.Sprintf("k%02d", i)] = float64(i + round)
+			}
+			inner := map[string]any{}
+			for i := 0; i < 18; i++ {
+				inner[fmt.Sprintf("m%02d_%d", i, round)] = float64(i)
+			}
+			m["o"] = inner
+			return m
+		}
+		fp := func(o *h.Out) string {
+			if o.Class != h.OK {
+				return o.Summary()
+			}
+			return h.CanonBag(o.Items)
+		}
+		// (a) the caller edits the object between two calls
+		doc := mk(0)
+		first := fp(h.Call("query", p, doc, h.Opts{}))
+		delete(doc, "k07")
+		doc["k99"] = float64(99)
+		in := doc["o"].(map[string]any)
+		delete(in, "m03_0")
+		in["zz"] = float64(77)
+		got := fp(h.Call("query", p, doc, h.Opts{}))
+		want := fp(h.Call("query", path.MustParse(pt), deepCopyJSON(doc), h.Opts{}))
+		c.Eval(3)
+		if got != want {
+			c.Violate("repeat-differs", h.F("kind", "edited-document"), fmt.Sprintf("Query(%s) on a document edited since the previous call (one member replaced, same size) = %s; on a copy of the document as it is now: %s (before the edit: %s)", pt, got, want, first), h.Case{Kind: "edited-document", Path: pt})
+		} else {
+			c.Held("repeat-differs")
+		}
+		// (b) short-lived documents of one shape, one after the other
+		bad := ""
+		for round := 1; round <= 60 && bad == ""; round++ {
+			d := mk(round)
+			got := fp(h.Call("query", p, d, h.Opts{}))
+			want := fp(h.Call("query", path.MustParse(pt), deepCopyJSON(d), h.Opts{}))
+			c.Eval(2)
+			if got != want {
+				bad = fmt.Sprintf("round %d: %s, on a copy %s", round, got, want)
+			}
+			if round%8 == 0 {
+				runtime.GC()
+			}
+		}
+		if bad != "" {
+			c.Violate("repeat-differs", h.F("kind", "short-lived-documents"), fmt.Sprintf("Query(%s) on freshly built documents of one shape, discarded after each call: %s", pt, bad), h.Case{Kind: "edited-document", Path: pt})
+		} else {
+			c.Held("repeat-differs")
+		}
+		_ = pi
+	}
+}
+
+func deepCopyJSON(v any) any {
+	b, err := json.Marshal(v)
+	if err != nil {
+		panic("harness: " + err.Error())
+	}
+	return h.Decode(string(b), false)
 }
 
 // c19RejectedParses: Parse is called concurrently also with texts it rejects
@@ -647,6 +722,7 @@ func runC19(c *h.Ctx) {
 	}
 	c19Overlap(c, cf.n, rounds)
 	c19RejectedParses(c, cf.n)
+	c19EditedDocuments(c)
 	c.Count("overlap.operation-pairs", overlapPairs)
 	c.Count("overlap.same-path-pairs", overlapSamePath)
 	c.Count("max:goroutines", int64(cf.n))
